@@ -294,6 +294,32 @@ def run(chk):
                                 'ocaml/driver_c05.ml (parse + print), harness/c05_probe.c + c05_asm.S (assembly probe), '
                                 'tools/gen_c05_cases.py (MIR text generation, image comparison), GNU as, gcc 12']
     cases = gen_cases(chk, quick)
+    # size-0 blocks (empty struct by value): generated once the tree handles the witness (fixes/C05-6.patch); a tree that
+    # fails the witness although KNOWN_FINDINGS.txt records the fix is reported below like any other failing case
+    rng0 = chk.rng('size0')
+    w0 = dict(args=['i64'] * 7 + ['blk:0'], nfixed=8, vararg=False, res=['i64'], style='boundary')
+    v0, r0 = G.gen_values(rng0, w0)
+    wcase = dict(calls=[dict(proto=w0, vals=v0)], rets=r0, engine='interp')
+    fixed_recorded = False
+    try:
+        fixed_recorded = any(l.startswith('fixed:') and 'property=C05' in l and 'size-0 block' in l
+                             for l in open(os.path.join(vlib.VERIF, 'KNOWN_FINDINGS.txt')))
+    except OSError:
+        pass
+    if not run_cases(impl, model, [wcase])[0][1] or fixed_recorded:
+        protos0 = [w0, dict(args=['blk:0', 'i64'], nfixed=2, vararg=False, res=[], style='boundary'),
+                   dict(args=['i64'] * 6 + ['blk:0', 'i64', 'blk:0', 'd', 'i64'], nfixed=11, vararg=False, res=['d'], style='boundary'),
+                   dict(args=['p', 'i64', 'blk:0', 'd'], nfixed=1, vararg=True, res=[], style='boundary'),
+                   dict(args=['d'] * 9 + ['blk:0', 'd', 'ld'], nfixed=12, vararg=False, res=['ld'], style='boundary')]
+        for p0 in protos0:
+            vv, rr = G.gen_values(rng0, p0)
+            vv = G.fix_values(p0, vv, rng0)
+            for e in ENGINES_QUICK:
+                cases.append(dict(calls=[dict(proto=p0, vals=vv)], rets=rr, engine=e))
+        chk.cov['size0_blocks'] = 'generated'
+    else:
+        chk.cov['size0_blocks'] = 'not generated: the tree fails the witness `i64 x7, blk:0` via interp and no fixed: line records C05-6 yet'
+        chk.log('note: size-0 block arguments not generated (fix C05-6 pending)')
     for c in cases:
         chk.dist('engine', c['engine'])
         chk.dist('calls_per_context', len(c['calls']))
